@@ -22,6 +22,12 @@ CHECKS = {
     text="Every repository input and proptest-generated WSDLs with many operations / multi-part messages are generated repeatedly: in-process (fresh RandomState per map), in threads, in K fresh processes, under every registration order of the sibling files, three times on the same FilesToRead object, and written twice from one document; all outputs must be byte-identical to the first. Hash seeds are sampled, not controlled; with >= 3 operations 8 seeds agreeing by chance is < 1e-5.",
     note="Trusted: byte comparison. readdir order of a real file system is approximated by registration order here; the CLI directory-order axis is covered by C17.",
     design="DESIGN.md section 4 C12"),
+ "C13": dict(
+    category="exploration",
+    technique="structure-aware mutation fuzzing driven by proptest (16 mutation operators on roxmltree positions, 1-3 per case) over real and generated schema sets, each generation in an isolated worker process classified returned / panicked / killed / timeout; thorough adds a coverage-guided libFuzzer campaign",
+    text="Thousands of mutants of the repository's schemas, generated WSDLs, import graphs and an extension/list/union/group schema (dangling, duplicate, self- and mutually-referential QNames, swapped tags, spliced subtrees, odd names, truncation, junk) plus API-edge probes (300 colliding namespaces, 3000 nested sequences, 1500-long forward chains, empty files) are read and written in worker processes under a watchdog. Outcome must be a returned document or a returned error. Failures are clustered by panic site / signal and shrunk.",
+    note="Trusted: the worker protocol and watchdog (10 s + 1 s per 100 KB, confirmed twice at 3x before it counts). Nothing is concluded about inputs the mutators and the fuzzer never produce.",
+    design="DESIGN.md section 4 C13"),
  "C15": dict(
     category="fault_enumeration",
     technique="fault injection enumerated over every write call of the sink (fail-once and dead-sink modes, rotated error kinds, Interrupted, short writes) with an Err/Ok/panic oracle and byte comparison",
